@@ -171,7 +171,9 @@ func (w *world) genTx() *wire.MsgTx {
 		total += c.Value
 	}
 	seqs := make([]uint32, len(ins))
-	version := int32(rapid.SampledFrom([]int32{1, 2, 2, 3}).Draw(t, "version"))
+	// consensus reads the version as unsigned when deciding whether relative locks apply
+	// (negative versions are >= 2); policies that accept non-standard transactions let them in
+	version := int32(rapid.SampledFrom([]int32{1, 2, 2, 3, 2, 1, -1, -2147483648, 2147483647, 0}).Draw(t, "version"))
 	for i := range seqs {
 		seqs[i] = rapid.SampledFrom([]uint32{0xffffffff, 0xffffffff, 0xfffffffe, 0xfffffffd, 0xfffffffd, 0, 1, 5, 1 << 22, 1<<22 | 1, 1<<31 | 7}).Draw(t, "sequence")
 	}
